@@ -25,6 +25,7 @@ type wbEvent struct {
 	// emit
 	emitter string       // "null" | "default" | "?"
 	countTo types.Object // variable receiving the byte count
+	from    types.Object // for kind copy: the variable copied from
 	// settype
 	tval string // "null" | "default" | "?"
 	// addblock
@@ -179,6 +180,16 @@ func ruleWriteBlockTrace(r *core.Run, p *core.Prog, want map[string]bool) {
 			}
 		}
 		if a, ok := n.(*ast.AssignStmt); ok {
+			// value copies between integer locals (`nWritten, err = n, nil`): the byte count keeps its identity
+			if len(a.Lhs) == len(a.Rhs) && (a.Tok == token.ASSIGN || a.Tok == token.DEFINE) {
+				for i := range a.Lhs {
+					to, okT := core.ObjOf(info, a.Lhs[i]).(*types.Var)
+					from, okF := core.ObjOf(info, stripConv(info, a.Rhs[i])).(*types.Var)
+					if okT && okF && !to.IsField() && !from.IsField() && to != from {
+						evs = append(evs, wbEvent{kind: "copy", node: a, countTo: to, from: from})
+					}
+				}
+			}
 			for i, l := range a.Lhs {
 				if core.SelField(info, l) == fldCur {
 					if a.Tok == token.ADD_ASSIGN {
@@ -261,6 +272,9 @@ func ruleWriteBlockTrace(r *core.Run, p *core.Prog, want map[string]bool) {
 		}
 	}
 	for _, path := range paths {
+		if !feasible(info, g, path) {
+			continue
+		}
 		var seq []wbEvent
 		sawExistsFalse := false
 		failing, succeeding := false, false
@@ -325,6 +339,12 @@ func ruleWriteBlockTrace(r *core.Run, p *core.Prog, want map[string]bool) {
 					}
 				} else {
 					fail("compress-error-checked", path, fmt.Sprintf("emitting call at %s: result not assigned", p.Rel(e.node.Pos())))
+				}
+			case "copy":
+				if lastEmit != nil && lastEmit.countTo != nil && e.from == lastEmit.countTo {
+					cp := *lastEmit
+					cp.countTo = e.countTo
+					lastEmit = &cp
 				}
 			case "seekback":
 				seekSince = true
